@@ -120,7 +120,11 @@ TIE = {
     "C16": "response_expected", "C18": "delay_after_send / delay_after_receive", "C20": "configure_port setters and the two constructor timeouts",
     "C12": "VirtualSign dispatch and per-handler state tables", "C13": "VirtualSign dispatch and per-handler state tables",
     "C14": "VirtualSign dispatch and per-handler state tables",
-    "C17": "message.rs code tables and the serial classification tables",
+    "C17": "message.rs code tables, the serial classification tables and the controller (src/sign.rs compiled statement by statement into an interaction tree)",
+    "C08": "the controller (src/sign.rs compiled statement by statement into an interaction tree) and the VirtualSign tables",
+    "C09": "the controller (src/sign.rs compiled statement by statement into an interaction tree)",
+    "C10": "the controller (src/sign.rs compiled statement by statement into an interaction tree)",
+    "C11": "the controller (src/sign.rs compiled statement by statement into an interaction tree)",
 }
 
 
